@@ -493,6 +493,18 @@ func TestC14(t *testing.T) {
 			mc.FeedEOF()
 			conn.Close()
 		}
+		// the connections' goroutines end asynchronously: wait for them, so that
+		// nothing of this suite is still running when the next one looks at the
+		// goroutine dump; whatever is still there after 30 s has leaked
+		deadline := time.Now().Add(30 * time.Second)
+		for len(libGoroutines()) != 0 {
+			if time.Now().After(deadline) {
+				gs := libGoroutines()
+				c.Fail(ev.Sig{"op": "goroutine-left", "how": "after-stress"}, nil, gs[0].Stack, "%d library goroutine(s) still exist 30 s after %d connections were terminated, e.g. %s", len(gs), rounds, topLibFrame(gs[0].Stack))
+				return
+			}
+			time.Sleep(2 * time.Millisecond)
+		}
 		c.Event("stress_rounds", rounds)
 	})
 	// client + watchdog
